@@ -82,6 +82,18 @@ def _plainh(v):
 
     if isinstance(v, Hostile):
         return ("Hostile", v.token)
+    import collections.abc as _abc
+
+    if isinstance(v, _abc.Iterator):
+        # a one-shot stream left in the context: what matters is what is still in it (drained here, after the run)
+        rest = getattr(v, "_verif_rest", None)
+        if rest is None:
+            rest = [_plainh(x) for x in v]
+            try:
+                v._verif_rest = rest
+            except AttributeError:
+                pass
+        return ("iterator", rest)
     if isinstance(v, dict):
         return {k: _plainh(x) for k, x in v.items()}
     if isinstance(v, (list, tuple)):
@@ -131,7 +143,34 @@ def inject_hostile(case, g):
 
 
 def materialise(ctx):
-    return {k: (Hostile(v[2], v[1]) if isinstance(v, tuple) and v and v[0] == "__hostile__" else v) for k, v in ctx.items()}
+    out = {}
+    for k, v in ctx.items():
+        if isinstance(v, tuple) and v and v[0] == "__hostile__":
+            out[k] = Hostile(v[2], v[1])
+        elif isinstance(v, tuple) and v and v[0] == "__iter__":
+            out[k] = iter(list(v[1]))          # a fresh one-shot iterator for every run
+        else:
+            out[k] = v
+    return out
+
+
+def inject_stream_or_rng(case, g):
+    """Two resources a run may legitimately use and a tracer must not touch: a one-shot iterator travelling through the
+    context (from the initial context, or made by node k for node k+1), and the process-wide random generators."""
+    r = g.rng.random()
+    nodes = list(case["nodes"])
+    pos = g.rng.randint(0, len(nodes))
+    if r < 0.4:
+        case["ctx"]["items"] = ("__iter__", [g.val() for _ in range(g.rng.randint(1, 4))])
+        nodes.insert(pos, {"processor": "VCtxIterSum"})
+        case["one_shot"] = True
+    elif r < 0.7:
+        nodes[pos:pos] = [{"processor": "VCtxMakeIter", "parameters": {"n": g.rng.randint(1, 4)}}, {"processor": "VCtxIterSum"}]
+        case["one_shot"] = True
+    else:
+        nodes.insert(pos, {"processor": "VCtxRandom"})
+        case["uses_rng"] = True
+    case["nodes"] = nodes
 
 
 def check_case(run, case, detail, history, g, scratch):
@@ -139,11 +178,22 @@ def check_case(run, case, detail, history, g, scratch):
 
     nodes, data = case["nodes"], case["data"]
     ctx_spec = case["ctx"]
-    witness = {"nodes": nodes, "ctx": {k: (list(v) if isinstance(v, tuple) else v) for k, v in ctx_spec.items()}, "data": data, "detail": detail}
+    witness = {"nodes": nodes, "ctx": {k: (list(v) if isinstance(v, tuple) else v) for k, v in ctx_spec.items()}, "data": data, "detail": detail,
+               "one_shot": bool(case.get("one_shot")), "uses_rng": bool(case.get("uses_rng"))}
+
+    def reseed():
+        # the caller seeds the process-wide generators before every run (as a reproducible study would)
+        import random
+
+        import numpy as np
+
+        random.seed(20261004)
+        np.random.seed(20261004)
 
     def real(trace_detail=None, pipeline=None):
         ctx = materialise(ctx_spec)
         d = data
+        reseed()
         if trace_detail is None:
             r = account.real_run(nodes, d, ctx, scratch=scratch, pipeline=pipeline)
             return r, None
@@ -159,10 +209,15 @@ def check_case(run, case, detail, history, g, scratch):
     run.count("traced_runs")
     if not same(outcome(base), outcome(traced)):
         kind = f"{outcome(base)[0]}_vs_{outcome(traced)[0]}"
-        hostile = sorted({v[1] for v in ctx_spec.values() if isinstance(v, tuple)})
+        hostile = sorted({v[1] for v in ctx_spec.values() if isinstance(v, tuple) and v and v[0] == "__hostile__"})
         run.violation(f"tracing_changes_outcome:{kind}" + (":with_hostile_values" if hostile else ""),
                       f"untraced run {outcome(base)[:2]} but traced run (detail={detail}) {outcome(traced)[:2]}",
                       dict(witness, untraced=_safe(outcome(base)), traced=_safe(outcome(traced))))
+    if case.get("one_shot"):
+        # an iterator object has an address-bearing default repr: its summaries legitimately differ from run to run,
+        # only the observational comparison applies
+        run.count("one_shot_iterator_cases")
+        return
     # ---- (2) reproducibility: fresh pipelines, with a history in between
     for hi, h in enumerate(history):
         if hi % 2 == 0:
@@ -198,6 +253,7 @@ def check_case(run, case, detail, history, g, scratch):
 
     def real_shared():
         before = set(os.listdir(shared_dir))
+        reseed()
         pipe.trace = shared
         r = account.real_run(nodes, data, materialise(ctx_spec), scratch=scratch, pipeline=pipe, trace=shared)
         new = sorted(set(os.listdir(shared_dir)) - before)
@@ -229,6 +285,7 @@ def check_case(run, case, detail, history, g, scratch):
     ctx_b = dict(ctx_spec, **extra)
 
     def run_b(pipeline):
+        reseed()
         tr = tc.traced_run(nodes, data, materialise(ctx_b), detail=detail, mode="file", scratch=scratch, pipeline=pipeline)
         recs = [tc.normalise(r) for r in tr.records]
         shutil.rmtree(tr.tdir, ignore_errors=True)
@@ -307,6 +364,9 @@ def run(run):
             case["ctx"] = inject_hostile(case, g)
             if isinstance(case["data"], float) and g.chance(0.5):
                 case["data"] = HFloat(case["data"])
+            if i % 3 == 2:      # coprime with the rotation of detail levels
+                inject_stream_or_rng(case, g)
+                run.count("cases_with_stream_or_rng")
             if i % 4 == 1:
                 ex = gen.add_exotic_parameter(case, g)
                 case["nodes"], case["ctx"] = ex["nodes"], ex["ctx"]
@@ -338,7 +398,8 @@ def replay(run, witness):
     try:
         g = gen.Gen(run.seed, scratch)
         case = {"nodes": witness["nodes"], "data": witness["data"],
-                "ctx": {k: (tuple(v) if isinstance(v, list) and v and v[0] == "__hostile__" else v) for k, v in witness["ctx"].items()}}
+                "ctx": {k: (tuple(v) if isinstance(v, list) and v and v[0] in ("__hostile__", "__iter__") else v) for k, v in witness["ctx"].items()},
+                "one_shot": witness.get("one_shot", False), "uses_rng": witness.get("uses_rng", False)}
         check_case(run, case, witness["detail"], [], g, scratch)
         run.case(witness["nodes"], True, sample=witness["nodes"])
         run.case("replay-second-slot", True)
